@@ -24,6 +24,9 @@ fn ch(class: &str) -> &'static str {
         "amp" => "&",
         "dot" => ".",
         "colon" => ":",
+        "bslash" => "\\",
+        "bracket" => "[",
+        "tilde" => "~",
         _ => "x",
     }
 }
@@ -65,7 +68,8 @@ fn run_case(case: &Value, root: &Path) -> Value {
     let linker = base.join("linker.md");
     std::fs::write(&target, "# Target\n\nold\n").unwrap();
     let rel = if dir.is_empty() { name.clone() } else { format!("{}/{}", dir, name) };
-    std::fs::write(&linker, format!("# Linker\n\n[t](<{}>)\n", rel)).unwrap();
+    // inside <...> a backslash is an escape character: write it escaped
+    std::fs::write(&linker, format!("# Linker\n\n[t](<{}>)\n", rel.replace('\\', "\\\\"))).unwrap();
     let mut base_str = base.to_string_lossy().to_string();
     if base_kind == "trailing-slash" {
         base_str.push('/');
@@ -82,11 +86,18 @@ fn run_case(case: &Value, root: &Path) -> Value {
     let n0 = count(&mut c, &mut id);
     let refs = req(&mut c, &mut id, "textDocument/references",
         json!({"textDocument":{"uri":turi},"position":{"line":0,"character":0},"context":{"includeDeclaration":false}}));
+    if std::env::var("VH_DEBUG").is_ok() {
+        eprintln!("refs: {:?}", refs);
+    }
     let refs_ok = refs.as_ref().and_then(|v| v.as_array()).map(|a| a.len() == 1 && a[0]["uri"] == luri.as_str()).unwrap_or(false);
     let def = req(&mut c, &mut id, "textDocument/definition", json!({"textDocument":{"uri":luri},"position":{"line":2,"character":1}}));
     let def_ok = def.as_ref().map(|v| v["uri"] == turi.as_str()).unwrap_or(false);
     c.send_notif("textDocument/didChange", json!({"textDocument":{"uri":turi,"version":2},"contentChanges":[{"text":"# Target\n\nnew\n"}]}));
     let n1 = count(&mut c, &mut id);
+    if std::env::var("VH_DEBUG").is_ok() {
+        let items = req(&mut c, &mut id, "textDocument/completion", json!({"textDocument":{"uri":luri},"position":{"line":0,"character":0}}));
+        eprintln!("items: {:?}", items.map(|v| v["items"].as_array().map(|a| a.iter().map(|i| i["insertText"].clone()).collect::<Vec<_>>())));
+    }
     let fmt = req(&mut c, &mut id, "textDocument/formatting", json!({"textDocument":{"uri":turi},"options":{"tabSize":2,"insertSpaces":true}}));
     let fmt_new = fmt.as_ref().and_then(|v| v.as_array()).and_then(|a| a.first()).and_then(|e| e["newText"].as_str()).map(|t| t.contains("new")).unwrap_or(false);
     let lf = req(&mut c, &mut id, "textDocument/formatting", json!({"textDocument":{"uri":luri},"options":{"tabSize":2,"insertSpaces":true}}));
